@@ -295,6 +295,26 @@ def check_C13(args):
             for s in sa:
                 judge_standalone(pid, V, s, traces.get(s["scn"], []), stats)
         print("[%s] standalone part done at %.1fs: %s" % (pid, time.time() - t0, stats), flush=True)
+        # the rpc part: followers answer the leader over the real rpc transport and fail
+        # after k rows; the failure travels in the closing message of the remote query
+        if not args.replay or "wire" in rp:
+            import wire_checks
+            wbin = common.build(("zvwire",))["zvwire"]
+            if args.replay:
+                wsc = [rp["wire"]]
+            else:
+                wsc = [wire_checks.wire_scenario("rpc%d" % i, rng, rng.choice([2, 3]), i % 4, 8 if quick else 16, faults=True) for i in range(3 if quick else 16)]
+            wtr = common.run_shards(wbin, wsc, os.path.join(work, "runw"), nproc=min(8, len(wsc)), timeout=1800)
+            wstats = {k: 0 for k in ("harness_errors", "queries", "with_rows", "embedded_errors", "faulted", "faulted_incomplete", "reported_incomplete")}
+            for s_ in wsc:
+                wire_checks.judge_wire(pid, V, s_, wtr.get(s_["scn"], []), wstats)
+            wfails, wviol, nses, nlines = wire_checks.validate_wire(wtr, os.path.join(work, "tvw"))
+            stats["rpc_runs"], stats["rpc_faulted"], stats["rpc_faulted_incomplete"] = wstats["queries"], wstats["faulted"], wstats["faulted_incomplete"]
+            stats["rpc_sessions_validated"], stats["rpc_sessions_rejected"] = nses, len(wfails)
+            stats["harness_errors"] += wstats["harness_errors"]
+            if wfails:
+                V.notes.append("%d remote-query sessions are not behaviours of spec/Wire.tla, e.g. %s" % (len(wfails), json.dumps(list(wfails.items())[0])[:300]))
+            print("[%s] rpc part done at %.1fs: %s" % (pid, time.time() - t0, wstats), flush=True)
         if stats["drift"]:
             V.notes.append("%d cluster reports are not among those the specification allows for their fault vector (binding)" % stats["drift"])
         # distinct violations only
@@ -304,8 +324,8 @@ def check_C13(args):
         V.violations = list(uniq.values())
         cov.update({"traces_validated_against_impl": stats["bound"], "fault_vectors_in_spec": len(finals)})
         cov.update(stats)
-        cov["evaluations"] = stats["cluster_runs"] + stats["deadline_runs"] + stats["memcap_runs"] + stats["web_runs"]
-        cov["distinct_nontrivial"] = stats["cluster_incomplete"] + stats["deadline_incomplete"] + stats["memcap_told"] + stats["web_told"] + stats["web_incomplete"]
+        cov["evaluations"] = stats["cluster_runs"] + stats["deadline_runs"] + stats["memcap_runs"] + stats["web_runs"] + stats.get("rpc_faulted", 0)
+        cov["distinct_nontrivial"] = stats["cluster_incomplete"] + stats["deadline_incomplete"] + stats["memcap_told"] + stats["web_told"] + stats["web_incomplete"] + stats.get("rpc_faulted_incomplete", 0)
         cov["rule"] = ("a run = one query under one fault: a vector of partition behaviours {ok, absent, error after k rows, stall after k rows past the leader's "
                        "time-out, retriable failure} on an in-process cluster (P = 2, 3; 1-2 followers per partition), a deadline already expired or passing "
                        "while row k is handled, the memory cap, the HTTP API with a 1 ns query time-out or a response-size limit; non-trivial = the "
@@ -322,7 +342,8 @@ def check_C13(args):
                                "HTTP API must not answer 200 with fewer rows",
                                "faults are injected in harness-owned query handlers (RegisterQueryHandler), deadlines through the context; "
                                "a stall lasts 900 ms against a leader time-out of 350 ms",
-                               "the gRPC transport between leader and follower is not part of this check"],
+                               "rpc part: a leader whose partitions are answered by follower databases through the real rpc client and server "
+                               "(zvwire); a follower fails after k rows, the failure travels in the closing message of the remote query"],
                               time.time() - t0, len(V.violations))
         if stats["harness_errors"] > 1:
             print("harness errors in %d scenarios" % stats["harness_errors"])
